@@ -183,7 +183,7 @@ def _random_pattern(rng):
     used = sorted(set(t["n"] for c in comps if not c["d"] for t in c["toks"] if t["t"] == "name"))
     subs = []
     sub_pool = [[Q], [Q, STAR], [lit("a"), STAR], [STAR, lit("a")], [CLASSES[0]], [lit("."), STAR], [STAR, lit("."), STAR],
-                [CLASSES[1], STAR], [lit("a")], [Q, Q]]
+                [CLASSES[1], STAR], [lit("a")], [Q, Q], [STAR], [STAR]]
     for n in used:
         if rng.random() < 0.35:
             subs.append([n, rng.choice(sub_pool)])
